@@ -157,6 +157,8 @@ type caseInfo struct {
 	Probe []int `json:"probe,omitempty"`
 	// Range: the subset is contiguous and is requested as PageRange(first, last).
 	Range bool `json:"range,omitempty"`
+	// Hist (mode "hist"): several requests on one source extractor (hist.go).
+	Hist *histCase `json:"hist,omitempty"`
 }
 
 // probedSet: which pages carry a per-page result (all of them when no probe list is given).
